@@ -2,7 +2,8 @@
 # thorough tier: the quick analysis, plus the same analysis with GOARCH=386
 # (other int width, arch-tagged files), plus the checker self-test (source
 # variants through an overlay: every breaking variant must be reported on its
-# construct, every benign variant must stay silent).
+# construct, every benign variant must stay silent), plus the sweep over the
+# behaviour-preserving refactors kept under benign/ (all must stay silent).
 set -u
 ID=$1; REPO=${2:-/repo}
 VERIF=$(cd "$(dirname "$0")/.." && pwd)
@@ -15,11 +16,16 @@ rc386=$?
 # 2. variants
 python3 "$VERIF/scripts/variants.py" "$ID" "$REPO" --json "$TMP/variants.json" > "$TMP/variants.out" 2>&1
 rcvar=$?
-EXTRA=$(python3 - "$TMP/variants.json" "$rc386" <<'PY'
+# 2b. false-alarm sweep: the behaviour-preserving refactors under benign/ must leave this property silent
+python3 "$VERIF/scripts/refactors.py" "$REPO" --prop "$ID" --json "$TMP/refactors.json" > "$TMP/refactors.out" 2>&1
+rcref=$?
+EXTRA=$(python3 - "$TMP/variants.json" "$rc386" "$TMP/refactors.json" <<'PY'
 import json,sys
 try: d=json.load(open(sys.argv[1]))
 except Exception: d={}
 d['goarch_386_exit']=int(sys.argv[2])
+try: d.update(json.load(open(sys.argv[3])))
+except Exception: pass
 print(json.dumps(d))
 PY
 )
@@ -27,9 +33,11 @@ PY
 THUNDERLINT_EXTRA="$EXTRA" "$BIN" check -prop "$ID" -tier thorough -repo "$REPO" -verif "$VERIF"
 rc=$?
 tail -1 "$TMP/variants.out"
+tail -1 "$TMP/refactors.out"
 if [ $rc -eq 1 ]; then exit 1; fi
 if [ $rc386 -eq 1 ]; then grep -E '^(VIOLATION|  rule=)' "$TMP/386.out"; exit 1; fi
 if [ $rc -ne 0 ]; then exit $rc; fi
 if [ $rc386 -ne 0 ]; then cat "$TMP/386.out"; echo "ERROR property=$ID GOARCH=386 analysis failed"; exit 2; fi
 if [ $rcvar -ne 0 ]; then cat "$TMP/variants.out"; echo "ERROR property=$ID checker self-test failed (a seeded variant was not reported, or a benign one was)"; exit 2; fi
+if [ $rcref -ne 0 ]; then cat "$TMP/refactors.out"; echo "ERROR property=$ID checker self-test failed (a behaviour-preserving refactor under benign/ is reported)"; exit 2; fi
 exit 0
